@@ -1109,3 +1109,48 @@ Proof.
   cbn [forallb] in Hok. apply andb_prop in Hok. destruct Hok as [Hev Hok].
   apply IH; auto. apply mem_step_wf; auto.
 Qed.
+
+(* ================================================================== appended: defaults, constructor-derived configurations *)
+Lemma init_state_d_wf md dflt init : wf_md md = true -> wf_state md (init_state_d md dflt init).
+Proof.
+  intros Hmd. destruct (wf_md_parts md Hmd) as (Hs & Hd & _).
+  unfold wf_state, init_state_d, init_rows_d. cbn [st_rows st_rdata]. repeat split.
+  - rewrite firstn_length, app_length, repeat_length. lia.
+  - apply Forall_forall. intros x Hx. apply in_firstn in Hx. apply in_app_or in Hx. destruct Hx as [Hx|Hx].
+    + apply in_map_iff in Hx. destruct Hx as (y & <- & _). apply norm_in_range; auto.
+    + apply repeat_spec in Hx. subst. apply norm_in_range; auto.
+  - apply map_length.
+Qed.
+
+(* every granularity WritePort.Signature accepts for a plain shape gives a well-formed write port *)
+Lemma wsig_accepts_wf s d gran : wf_shape s = true -> wsig_ctor s gran = 0 ->
+  wf_wport s (WP d (wsig_enw s gran)) = true.
+Proof.
+  intros Hs Hc. pose proof (wf_shape_width s Hs) as Hw. unfold wf_wport, wsig_enw. cbn [wp_enw].
+  destruct gran as [g|].
+  - unfold wsig_ctor in Hc.
+    destruct (g <? 0) eqn:E1; [discriminate|]. destruct (sgn s); [discriminate|].
+    destruct (width s =? 0) eqn:E2; [reflexivity|].
+    destruct (g =? 0) eqn:E3; [discriminate|].
+    destruct (width s mod g =? 0) eqn:E4; [|discriminate].
+    assert (Hg : 0 < g) by lia. assert (Hm : width s mod g = 0) by lia.
+    pose proof (Z.div_mod (width s) g ltac:(lia)) as Hdm.
+    assert (Hq : 1 <= width s / g) by nia.
+    assert (width s mod (width s / g) = 0) as ->.
+    { replace (width s) with (g * (width s / g)) at 1 by lia. apply Z_mod_mult. }
+    lia.
+  - destruct (width s =? 0) eqn:E2; [reflexivity|]. rewrite Z.mod_1_r. reflexivity.
+Qed.
+
+Lemma mk_md_plain_wf s depth wps rps : wf_shape s = true -> 0 <= depth ->
+  forallb (fun p : Z * option Z => wsig_ctor s (snd p) =? 0) wps = true ->
+  wf_md (mk_md (RSPlain s) depth wps rps) = true.
+Proof.
+  intros Hs Hd Hp. unfold wf_md, mk_md. cbn [md_shape md_depth md_wports rs_shape]. rewrite Hs.
+  replace (0 <=? depth) with true by lia. cbn [andb].
+  rewrite forallb_forall. intros p Hin. apply in_map_iff in Hin. destruct Hin as ([d gran] & <- & Hin).
+  rewrite forallb_forall in Hp. specialize (Hp _ Hin). cbn [fst snd] in *.
+  unfold rs_enw. destruct gran as [g|]; cbn [rs_shape].
+  - apply (wsig_accepts_wf s d (Some g)); auto. lia.
+  - apply (wsig_accepts_wf s d None); auto.
+Qed.
